@@ -486,6 +486,49 @@ func gen(g *vh.Gen) {
 		}
 		g.Emit("net", []string{"mem", "file"}[i%2], fuzzInit, chunks, g.Pick(fins...))
 	}
+	// STLS / CAPA with a real TLS client, several connections to ONE server (kind tls; Coq's tsessions)
+	tlsInit := vh.HS("bob") + ":" + vh.HS("A: 1\r\n\r\nx\r\n") + "." + vh.HS("B: 2\r\n\r\n.y\r\n") + "." + vh.HS("c\r\n")
+	tlsCmds := []string{"CAPA", "CAPA", "STLS", "STLS", "STLS", "stls", "STLS x", "USER bob", "PASS x", "APOP bob x", "APOP bob x", "STAT", "LIST", "UIDL", "DELE 1", "DELE 2",
+		"RSET", "NOOP", "RETR 1", "RETR 2", "TOP 2 1", "QUIT", "XYZ", "", "LIST 9", "USER alice"}
+	for i := 0; i < g.N(150, 6000); i++ {
+		en := "1"
+		if g.Chance(0.15) {
+			en = "0"
+		}
+		ns := 1 + g.Intn(3)
+		var sessions []string
+		for si := 0; si < ns; si++ {
+			var steps []string
+			nst := g.Intn(7)
+			for j := 0; j < nst; j++ {
+				var b strings.Builder
+				for k, nl := 0, 1+g.Intn(3); k < nl; k++ {
+					b.WriteString(g.Pick(tlsCmds...))
+					b.WriteString(g.Pick("\r\n", "\r\n", "\n"))
+					if k == 0 && g.Chance(0.6) {
+						break // most segments carry one line
+					}
+				}
+				d := b.String()
+				hs := "1"
+				if g.Chance(0.12) {
+					hs = "0"
+				}
+				if len(d) > 3 && g.Chance(0.08) {
+					k := 1 + g.Intn(len(d)-2)
+					steps = append(steps, vh.HS(d[:k])+":"+hs, vh.HS(d[k:])+":"+hs)
+				} else {
+					steps = append(steps, vh.HS(d)+":"+hs)
+				}
+			}
+			if len(steps) == 0 {
+				sessions = append(sessions, "-")
+			} else {
+				sessions = append(sessions, strings.Join(steps, ","))
+			}
+		}
+		g.Emit("tls", en, tlsInit, strings.Join(sessions, ";"))
+	}
 	// exhaustive small dialogues: every pair of transaction commands on a 2-message mailbox
 	cmds := []string{"STAT", "LIST", "LIST 1", "LIST 2", "LIST 3", "UIDL", "UIDL 2", "DELE 1", "DELE 2", "DELE 0", "RETR 1", "RETR 3",
 		"TOP 2 1", "TOP 1 0", "RSET", "NOOP", "QUIT", "CAPA", "USER a", ""}
